@@ -481,7 +481,7 @@ def replace_one_constant(m: Match) -> str:
         return f"{m[1]}/_type=Str{m[2]}\n{m[1]}/s={m[3]}"
     elif m[3] in ("True", "False", "None"):
         return f"{m[1]}/_type=NameConstant{m[2]}\n{m[1]}/value={m[3]}"
-    if m[3].startswith("b'"):
+    if m[3].startswith(("b'", 'b"')):
         return f"{m[1]}/_type=Bytes{m[2]}\n{m[1]}/s={m[3]}"
     if m[3] == "Ellipsis":
         return f"{m[1]}/_type=Ellipsis{m[2]}"
